@@ -227,6 +227,15 @@ def parse_spec(path):
             comp.groups.append(g)
         else:
             raise SpecError('%s:%d: unknown directive %s' % (path, i + 1, d))
+    # a group is registered for every property that a clause of its enforced function is tagged with
+    for g in comp.groups:
+        if g.enforce and g.enforce in comp.functions:
+            for c in comp.functions[g.enforce]:
+                t = re.match(r'^\s*/\*((?:\[[^\]]+\])+)\*/', c)
+                if t:
+                    for x in re.findall(r'\[(C\d\d)\]', t.group(1)):
+                        if x not in g.properties:
+                            g.properties.append(x)
     return comp
 
 
